@@ -184,6 +184,8 @@ def main(ctx):
                 for d in DIRECTIONS:
                     jobs.append({"kind": "faults", "layout": layout, "dir": d, "ser": ser})
             jobs.append({"kind": "unenc", "ser": ser})
+            for layout in ("default", "split"):
+                jobs.append({"kind": "progress", "layout": layout, "ser": ser, "tier": tier})
             for layout in H_LAYOUTS:
                 parts = 5
                 for part in range(parts):
@@ -194,7 +196,7 @@ def main(ctx):
         ctx.pmap({"fw": fw, "nvx": "0"}, "props.c20:job", jobs, chunksize=1)
     ctx.coverage["distinct_nontrivial"] = int(ctx.counters["encrypted_payload_examined"])
     ctx.coverage["fault_positions_x_masks"] = int(ctx.counters["tamper_execs"])
-    need = ["history_execs", "history_ok",
+    need = ["history_execs", "history_ok", "progress_clean", "progress_fault_execs", "progress_fault_detected",
             "nonce_owned", "encrypted_payload_examined", "secrecy_messages_checked",
             "clear_by_config", "tamper_execs", "tamper_detected", "after_fault_clean_ok",
             "handler_invoked_positive", "structural_detected", "fault:field", "fault:trunc-end",
@@ -411,6 +413,9 @@ class Scenario:
             if self.wrong == "rekey-before-reply":
                 self.resp.set_payload_codec(wrong_keyring(self.layout, "rekey-before-reply"))
             kind = self.reply[0]
+            if getattr(self, "progressive", False) and details.progress is not None:
+                details.progress(*self.reply[1], **self.reply[2])
+                return "final"
             if kind == "value":
                 return self.reply[1]
             if kind == "result":
@@ -450,6 +455,8 @@ class Scenario:
                                                          else "responder"):
             if isinstance(msg, M.Error) and msg.request_type != M.Call.MESSAGE_TYPE:
                 return msg
+            if getattr(self, "progressive", False) and not getattr(msg, "progress", False):
+                return msg          # only the progressive RESULT is the target
             self.captured["last"] = msg
             if f and f.get("armed") and msg.payload is not None:
                 t = f["type"]
@@ -478,6 +485,13 @@ class Scenario:
                                                **kwargs))
         if d == "yield":
             self.reply = ("result", args, kwargs)
+            if getattr(self, "progressive", False):
+                from autobahn.wamp.types import CallOptions
+                self.progress_log = getattr(self, "progress_log", [])
+
+                def on_progress(*a_, **k_):
+                    self.progress_log.append((norm(a_), norm(k_)))
+                return self.b.do(self.orig.call(uri, "q", options=CallOptions(on_progress=on_progress)))
             return self.b.do(self.orig.call(uri, "q"))
         if d == "error":
             self.reply = ("raise", err_uri or self.err_uri, args, kwargs)
@@ -843,6 +857,63 @@ def job(a):
                 col.add("C20|%s-%s|%s|%s" % (label, clause, d, layout),
                         "ser=%s fault=%r: %s" % (ser, fault, detail),
                         {"kind": "fault", "layout": layout, "dir": d, "ser": ser, "fault": fault})
+    elif kind == "progress":
+        # progressive call results: clean runs deliver exactly the published progress payload to
+        # on_progress; under every fault on the progressive RESULT nothing reaches on_progress
+        layout, ser = a["layout"], a["ser"]
+        args, kwargs = PAYLOADS[TAMPER_PAYLOAD]
+
+        def run(fault):
+            sc = Scenario(layout, ser, "yield", PROC_A)
+            sc.progressive = True
+            sc.progress_log = []
+            if fault is not None:
+                if fault["type"] == "swap-uri":
+                    # ciphertext of a progressive result of another procedure
+                    sc.op(args, kwargs, uri=sc.other)
+                    donor = sc.captured["last"]
+                    sc.progress_log[:] = []
+                    sc.calls[:] = []
+                    sc.fault = {"type": "replace-payload", "payload": donor.payload, "armed": True}
+                else:
+                    sc.fault = dict(fault, armed=True)
+            box = sc.op(args, kwargs)
+            return sc, box
+        sc, box = run(None)
+        col.evals += 1
+        st["progress_clean"] += 1
+        last = sc.captured.get("last")
+        if sc.progress_log != [(norm(args), norm(kwargs))] or len(box) != 1 or box[0] != ("ok", "final"):
+            col.add("C20|progress-recovery|%s|%s" % (layout, ser),
+                    "clean progressive call: on_progress saw %r, outcome %r" % (sc.progress_log, box),
+                    {"kind": "progress", "layout": layout, "ser": ser})
+        elif last is None or last.payload is None or last.enc_algo != "cryptobox":
+            col.add("C20|not-encrypted|progress|%s|%s" % (layout, ser),
+                    "the progressive RESULT carries no encrypted payload", {"kind": "progress", "layout": layout, "ser": ser})
+        else:
+            L = len(last.payload)
+            faults = [{"type": "xor", "pos": p_, "mask": m_} for p_ in range(0, L, 3 if a["tier"] != "thorough" else 1)
+                      for m_ in (0x01, 0x80)]
+            faults += [dict(f) for f in STRUCTURAL] + [{"type": "swap-uri"}]
+            for fault in faults:
+                sc, box = run(fault)
+                col.evals += 1
+                st["progress_fault_execs"] += 1
+                if sc.fault_applied < 1:
+                    raise RuntimeError("progress fault %r not applied" % (fault,))
+                probs = []
+                if sc.progress_log:
+                    probs.append(("progress-delivered", "on_progress was invoked with %r" % (sc.progress_log,)))
+                if sc.b.escapes:
+                    probs.append(("escape", repr(sc.b.escapes[0])[:200]))
+                if len(box) > 1:
+                    probs.append(("multiple-outcomes", repr(box)[:200]))
+                if not probs:
+                    st["progress_fault_detected"] += 1
+                for clause, detail in probs:
+                    col.add("C20|progress-%s-%s|%s" % (fault["type"], clause, layout),
+                            "ser=%s fault=%r: %s" % (ser, fault, detail),
+                            {"kind": "progress", "layout": layout, "ser": ser})
     elif kind == "history":
         layout, ser = a["layout"], a["ser"]
         fresh = {}
@@ -1232,6 +1303,9 @@ def replay(a):
         sc, box, bad, applied = run_fault(a["layout"], a["dir"], a["ser"], a["fault"], st)
         if not bad and a["fault"]["type"] != "wrongkey":
             bad = after_fault_clean(sc, st)
+    elif kind == "progress":
+        r_ = job(dict(a, tier=a.get("tier", "quick")))
+        return {"viol": r_["viol"], "stats": r_["stats"]}
     elif kind == "history":
         fresh = {}
         for oi, op in enumerate(H_OPS):
